@@ -204,18 +204,12 @@ EXECUTE_SRC = '''def _execute(operator: str, *operands):
 
 WRAP_SRC = '''def wrap_in_experimental_value(operand):
     if isinstance(operand, Real):
-        return dt.Constant(operand)
+        return dt.Constant(int(operand) if isinstance(operand, Integral) else float(operand))
     if isinstance(operand, dt.ExperimentalValue):
         return operand
     if isinstance(operand, tuple) and len(operand) == 2:
         return dt.MeasuredValue(operand[0], operand[1])
     raise TypeError('Cannot parse a {} into an ExperimentalValue'.format(type(operand).__name__))'''
-
-
-# the same, with the number converted to a plain Python int / float first (value-preserving)
-WRAP_SRC2 = WRAP_SRC.replace("return dt.Constant(operand)",
-                             "return dt.Constant(int(operand) if isinstance(operand, Integral) else float(operand))")
-assert WRAP_SRC2 != WRAP_SRC
 
 
 def module_functions(tree):
@@ -372,7 +366,7 @@ def gen_overloads(repo):
     tree = parse(repo, rel)
     check_array_types(rel, tree)
     fns = module_functions(tree)
-    if "wrap_in_experimental_value" not in fns or normalized(fns["wrap_in_experimental_value"]) not in (WRAP_SRC, WRAP_SRC2):
+    if "wrap_in_experimental_value" not in fns or normalized(fns["wrap_in_experimental_value"]) != WRAP_SRC:
         raise TranslateError(rel, fns.get("wrap_in_experimental_value", tree),
                              "wrap_in_experimental_value is not of the recognised shape")
     out.append("(* wrap_in_experimental_value: Real -> Constant, ExperimentalValue -> itself, 2-tuple -> MeasuredValue *)")
